@@ -54,7 +54,7 @@ PROPS = {
         "suites": ["c04"],
         "level": "proof",
         "proof_module": "GeoProofs.Props.C04All",
-        "theorems": ["Geo.qtree_search_exact", "Geo.rtree_search_exact", "Geo.rtree_search_exact_of_NE", "Geo.rBuild_items_counterexample", "Geo.readNum_appendNum", "Geo.qSearchTree_eq_foldUntil", "Geo.qVisit_perm_filter", "Geo.qInsert_inv", "Geo.qInsert_items", "Geo.qBuild_spec", "Geo.rSearchTree_eq_foldUntil", "Geo.rVisit_eq_filter", "Geo.splitEntries_perm", "Geo.rBuild_spec'", "Geo.series_search_exact_none", "Geo.series_search_exact_quadtree", "Geo.series_search_exact_rtree", "Geo.segBox_inside_rect", "Geo.series_search_exact_rtree_dyadic", "Geo.series_search_exact_dyadic", "Geo.decF64_encF64", "Geo.rtree_search_exact_patched", "Geo.rBuild_good", "Geo.searchAny_perm", "Geo.searchAny_index_indep", "Geo.intersectsSegment_fold_perm", "Geo.ringIntersectsSegment_index_indep", "Geo.ringIntersectsSegmentS_index_indep", "Geo.ringIntersectsLine_index_indep", "Geo.ringIntersectsRing_index_indep", "Geo.lineIntersectsLine_index_indep", "Geo.lineContainsLine_index_indep", "Geo.lineContainsPoint_index_indep", "Geo.polyContainsPoint_index_indep", "Geo.polyIntersectsLine_index_indep", "Geo.polyIntersectsPoly_index_indep", "Geo.polyIntersectsRect_index_indep", "Geo.ringContainsSegment_index_indep", "Geo.ringContainsSegment_index_indep_simple", "Geo.ringContainsSegmentS_false_index_indep", "Geo.ringContainsRing_index_indep", "Geo.ringContainsLine_index_indep", "Geo.Geom.Sim.intersects", "Geo.Geom.Sim.contains", "Geo.geom_intersects_index_indep", "Geo.geom_intersects_index_indep₂", "Geo.geom_contains_index_indep", "Geo.geom_contains_index_indep₂", "Geo.geom_intersects_index_indep_sized", "Geo.geom_contains_index_indep_sized", "Geo.ringContainsSegmentS_eq_V", "Geo.ringContainsSegmentS_eq_L", "Geo.ringContainsSegment_order_dependent_counterexample", "Geo.pinched_unindexed", "Geo.ringContainsSegment_not_sim_invariant", "Geo.rtree_series_foldOn", "Geo.ring17_rOrder", "Geo.ringContainsSegment_rtree_vs_none", "Geo.ringContainsSegment_not_index_indep", "Geo.geom_contains_rtree_vs_none", "Geo.qtree_series_foldOn", "Geo.ring37_strip_order", "Geo.ringContainsSegment_quadtree_vs_none"],
+        "theorems": ["Geo.qtree_search_exact", "Geo.rtree_search_exact", "Geo.rtree_search_exact_of_NE", "Geo.rBuild_items_counterexample", "Geo.readNum_appendNum", "Geo.qSearchTree_eq_foldUntil", "Geo.qVisit_perm_filter", "Geo.qInsert_inv", "Geo.qInsert_items", "Geo.qBuild_spec", "Geo.rSearchTree_eq_foldUntil", "Geo.rVisit_eq_filter", "Geo.splitEntries_perm", "Geo.rBuild_spec'", "Geo.series_search_exact_none", "Geo.series_search_exact_quadtree", "Geo.series_search_exact_rtree", "Geo.segBox_inside_rect", "Geo.series_search_exact_rtree_dyadic", "Geo.series_search_exact_dyadic", "Geo.decF64_encF64", "Geo.rtree_search_exact_patched", "Geo.rBuild_good", "Geo.searchAny_perm", "Geo.searchAny_index_indep", "Geo.intersectsSegment_fold_perm", "Geo.ringIntersectsSegment_index_indep", "Geo.ringIntersectsSegmentS_index_indep", "Geo.ringIntersectsLine_index_indep", "Geo.ringIntersectsRing_index_indep", "Geo.lineIntersectsLine_index_indep", "Geo.lineContainsLine_index_indep", "Geo.lineContainsPoint_index_indep", "Geo.polyContainsPoint_index_indep", "Geo.polyIntersectsLine_index_indep", "Geo.polyIntersectsPoly_index_indep", "Geo.polyIntersectsRect_index_indep", "Geo.ringContainsSegment_index_indep", "Geo.ringContainsSegment_index_indep_simple", "Geo.ringContainsSegmentS_false_index_indep", "Geo.ringContainsRing_index_indep", "Geo.ringContainsLine_index_indep", "Geo.Geom.Sim.intersects", "Geo.Geom.Sim.contains", "Geo.geom_intersects_index_indep", "Geo.geom_intersects_index_indep₂", "Geo.geom_contains_index_indep", "Geo.geom_contains_index_indep₂", "Geo.geom_intersects_index_indep_sized", "Geo.geom_contains_index_indep_sized", "Geo.ringContainsSegmentS_eq_V", "Geo.ringContainsSegmentS_eq_L", "Geo.ringContainsSegment_order_dependent_counterexample", "Geo.pinched_unindexed", "Geo.ringContainsSegment_not_sim_invariant", "Geo.rtree_series_foldOn", "Geo.ring17_rOrder", "Geo.ringContainsSegment_rtree_vs_none", "Geo.ringContainsSegment_not_index_indep", "Geo.geom_contains_rtree_vs_none", "Geo.qtree_series_foldOn", "Geo.ring37_strip_order", "Geo.ringContainsSegment_quadtree_vs_none", "Geo.DF.instLawfulCarrierDbl", "Geo.DF.instSignExactSubDbl", "Geo.DF.ieee_sub_neg", "Geo.DF.ieee_sub_pos", "Geo.DF.decD_encD", "Geo.DF.qtree_search_exact_dbl", "Geo.DF.rtree_search_exact_dbl", "Geo.DF.rtree_search_exact_patched_dbl", "Geo.DF.gseries_search_exact", "Geo.DF.series_search_exact_dbl", "Geo.DF.C04_series_dbl", "Geo.DF.toFQ_sub", "Geo.DF.toFQ_mul", "Geo.DF.toFQ_mid"],
         "trivial_sigs": {"se0"},
         "claim": "Proof (Lean 4), any carrier whose comparison is a strict weak order (nothing assumed about midpoints; R-tree: subtraction with exact sign), any size, any query: searching the compressed quadtree / R-tree bytes is the early-exit fold over a visit list that is a permutation of the brute-force filter, never an out-of-range read; codec round trip; series-level corollaries for all three index kinds. Tie: index BYTES and callback sequences compared with the implementation. Index independence of the predicates (Props/C04Indep.lean): Geom.intersects has the same answer under every index configuration for all 16 kind pairs; Geom.contains likewise when the left polygon's exterior and the right polygon's holes are convex or edge-simple; for self-touching rings the clause is false (kernel-checked counterexamples on the model's real R-tree and quadtree = known finding D20).",
         "rule": "series of sizes 0..1000 (..70000 thorough) in 7 layouts, open and closed, under no index / R-tree / quadtree: index bytes "
@@ -75,7 +75,7 @@ PROPS = {
     "C03": {
         "suites": ["c03"],
         "level": "proof",
-        "extra_modules": [{"module": "GeoProofs.Props.C03Convex", "theorems": ["Geo.closedRegion_convex", "Geo.closedRegion_iff_halfplanes", "Geo.ringContainsSegment_convex_flag", "Geo.ringContainsSegment_convex_exact", "Geo.ringContainsRing_convex_exact", "Geo.ringContainsLine_convex_exact", "Geo.poly_contains_exact_convex", "Geo.simpleRing_imp_ringSimple", "Geo.geom_contains_index_indep_valid", "Geo.geom_contains_index_indep_valid_sized", "Geo.plain_eq_build", "Geo.geom_contains_exact_convex_indexed", "Geo.rect_contains_exact_valid", "Geo.contains_exact_convex_receivers", "Geo.geom_contains_reflX_convex", "Geo.geom_contains_reflY_convex", "Geo.geom_contains_transpose_convex", "Geo.ringContainsRing_vertices_sound", "Geo.convex_flag_nonsimple_counterexample"]}],
+        "extra_modules": [{"module": "GeoProofs.Props.C03Convex", "theorems": ["Geo.closedRegion_convex", "Geo.closedRegion_iff_halfplanes", "Geo.ringContainsSegment_convex_flag", "Geo.ringContainsSegment_convex_exact", "Geo.ringContainsRing_convex_exact", "Geo.ringContainsLine_convex_exact", "Geo.poly_contains_exact_convex", "Geo.simpleRing_imp_ringSimple", "Geo.geom_contains_index_indep_valid", "Geo.geom_contains_index_indep_valid_sized", "Geo.plain_eq_build", "Geo.geom_contains_exact_convex_indexed", "Geo.rect_contains_exact_valid", "Geo.contains_exact_convex_receivers", "Geo.geom_contains_reflX_convex", "Geo.geom_contains_reflY_convex", "Geo.geom_contains_transpose_convex", "Geo.ringContainsRing_vertices_sound", "Geo.convex_flag_nonsimple_counterexample"]}, {"module": "GeoProofs.Props.C03Spec", "theorems": ["Geo.spec_covers_iff", "Geo.jordan_two_components", "Geo.spec_interiorPoint_strict", "Geo.spec_covers_refl", "Geo.spec_covers_trans", "Geo.spec_covers_imp_meets", "Geo.spec_covers_antisymm"]}],
         "proof_module": "GeoProofs.Props.C03All",
         "theorems": ["Geo.line_walk_terminates", "Geo.line_containsLine_eq", "Geo.rect_contains_rect_iff", "Geo.rect_contains_rect_illformed", "Geo.rect_contains_point_iff", "Geo.rect_contains_point_spec", "Geo.point_contains_point_iff", "Geo.point_contains_rect_iff", "Geo.box_contains_seriesRect_iff", "Geo.rect_contains_line_iff", "Geo.rect_contains_line_empty", "Geo.rect_contains_line_iff_onSeg", "Geo.rect_contains_poly_iff", "Geo.rect_contains_rectpoly", "Geo.seriesRect_eq_ptbox_iff", "Geo.point_contains_line_iff", "Geo.point_contains_poly_iff", "Geo.line_contains_point_iff", "Geo.line_contains_point_spec", "Geo.D4_wrong_true", "Geo.D4_wrong_false", "Geo.D5_wrong_true", "Geo.D5_wrong_false", "Geo.D13_wrong_true", "Geo.ringContainsSegment_of_avoids", "Geo.ringContainsSegment_of_avoids_all", "Geo.ringContainsSegment_false_of_avoids", "Geo.ringContainsRing_of_avoids", "Geo.ringContainsRing_of_avoids_all", "Geo.ringContainsRing_of_avoids_rect", "Geo.ringContainsLine_of_avoids", "Geo.ringIntersectsSegment_of_avoids", "Geo.ringIntersectsLine_strict_of_avoids", "Geo.ringIntersectsRing_strict_of_avoids", "Geo.poly_contains_line_of_no_contact", "Geo.poly_contains_rect_of_no_contact", "Geo.poly_contains_point_exact", "Geo.poly_contains_poly_noholes_of_no_contact", "Geo.poly_contains_exact_of_no_contact", "Geo.poly_containsPoly_closed_form", "Geo.line_contains_of_no_contact", "Geo.interiorOK_of_check", "Geo.ringContainsRing_shortcut_counterexample", "Geo.poly_contains_general_position_counterexample"],
         "trivial_sigs": set(),
@@ -183,7 +183,7 @@ PROPS = {
     },
     "C14": {
         "suites": ["c14"],
-        "level": "other", "proof_module": "GeoProofs.Props.C14", "theorems": ["Geo.C14.rect_lat_bounds", "Geo.C14.rect_lon_bounds", "Geo.C14.rect_pole_widens", "Geo.C14.rect_wrap_widens_general", "Geo.C14.rect_wrap_widens", "Geo.C14.rect_tiny_radius_degenerate", "Geo.C14.lat_diff_le_distance", "Geo.C14.rect_lat_cover_partial", "Geo.C14.rect_lat_cover_counterexample"],
+        "level": "other", "proof_module": "GeoProofs.Props.C14All", "theorems": ["Geo.C14.rect_lat_bounds", "Geo.C14.rect_lon_bounds", "Geo.C14.rect_pole_widens", "Geo.C14.rect_wrap_widens_general", "Geo.C14.rect_wrap_widens", "Geo.C14.rect_tiny_radius_degenerate", "Geo.C14.lat_diff_le_distance", "Geo.C14.rect_lat_cover_partial", "Geo.C14.rect_lat_cover_counterexample", "Geo.C14.rectLonDelta_eq", "Geo.C14.rectLonDelta_eq_arcsin", "Geo.C14.rectLonDelta_attained", "Geo.C14.lon_cover_rad", "Geo.C14.cos_le_of_distance_le", "Geo.C14.rect_lon_cover_full", "Geo.C14.rect_lon_cover", "Geo.C14.rect_lon_cover_interior", "Geo.C14.rect_lon_cover_nontouch", "Geo.C14.rect_cover", "Geo.C14.rect_cover_interior", "Geo.C14.rect_lon_of_nowiden", "Geo.C14.rect_lon_cover_pole_counterexample", "Geo.C14.rect_lon_cover_antimeridian_counterexample"],
         "translators": [{"name": "geoformulas", "out": "GeoFormulas.lean"}],
         "trivial_sigs": set(),
         "claim": "Partial: theorems over the reals about the re-translated RectFromCenter (world bounds, pole and wrap widening, tiny-radius degenerate case, latitude coverage outside the tiny-radius branch); longitude coverage and NaN-freedom are validated numerically only.",
@@ -589,6 +589,16 @@ def classify_float_break(pid, ops, i, impl, model_left, known):
 
 HOOK_COMMITS = ["f06195a"]
 NOT_YET = {}
+
+
+def xop_relevant(pid, opname, impl):
+    """an implementation-only oracle op shared by several suites speaks for the property it checks;
+    for the others only the outcome class (panic / timeout / crash) of the call is judged"""
+    if impl.startswith(("panic", "timeout", "crash", "not-run")):
+        return True
+    if opname == "xroundtrip":
+        return pid in ("C06", "C17")
+    return True
 
 
 def classify_xfail(pid, ops, i, impl, known):
